@@ -3,6 +3,7 @@ import os, sys, re, json, time, random, multiprocessing, traceback
 sys.path.insert(0, os.path.dirname(os.path.abspath(__file__)))
 from common import *
 import irsym
+import irsym_cxx
 
 _IRM = {}
 
@@ -22,7 +23,7 @@ class E2Unit:
         d = self.dir
         lls = []
         flags = ['-D' + x for x in self.defines] + ['-I' + ENGINE] + self.extra_flags
-        jobs = [(self.wrapper, os.path.join(d, 'wrapper.ll'))] + [(os.path.join(REPO, s), os.path.join(d, 'lib%d.ll' % k)) for k, s in enumerate(self.lib_srcs)]
+        jobs = [(self.wrapper, os.path.join(d, 'wrapper.ll')), (os.path.join(ENGINE, 'rt_support.cpp'), os.path.join(d, 'rt_support.ll'))] + [(os.path.join(REPO, s), os.path.join(d, 'lib%d.ll' % k)) for k, s in enumerate(self.lib_srcs)]
         pmap(lambda j: compile_ir(j[0], j[1], flags), jobs)
         self.linked = os.path.join(d, 'linked.ll')
         link_ir([j[1] for j in jobs], self.linked)
@@ -43,8 +44,9 @@ class E2Unit:
         self.native = os.path.join(d, 'native')
         must(run(['g++', '-rdynamic'] + flags + objs + ['-o', self.native, '-ldl'], timeout=600), 'link native')
 
-    def run_native(self, entry, args, values, timeout=60):
-        inp = ''.join('%s %s\n' % (k, ' '.join(str(x) for x in v)) for k, v in values.items())
+    def run_native(self, entry, args, values, timeout=60, data=None):
+        inp = ''.join('@%s %s\n' % (k, bytes(v).hex()) for k, v in (data or {}).items())
+        inp += ''.join('%s %s\n' % (k, ' '.join(str(x) for x in v)) for k, v in values.items())
         env = dict(os.environ, ASAN_OPTIONS='detect_leaks=0:halt_on_error=1:allocator_may_return_null=1', UBSAN_OPTIONS='halt_on_error=1:print_stacktrace=1')
         r = run([self.native, entry] + [str(a) for a in args], stdin=inp, timeout=timeout, env=env)
         txt = r['out'] + r['err']
@@ -61,7 +63,7 @@ def _load(unit_dir):
 
 
 def _shape_worker(task):
-    (unit_dir, entry, args, label, timeout, max_steps, max_paths, conc_cap, stubs, inputs) = task
+    (unit_dir, entry, args, label, timeout, max_steps, max_paths, conc_cap, stubs, inputs, data) = task
     t0 = time.time()
     out = dict(entry=entry, args=args, label=label, status='inconclusive', violations=[], reason='', stats={})
     try:
@@ -69,7 +71,10 @@ def _shape_worker(task):
         eng = irsym.Engine(irm, max_steps=max_steps, max_paths=max_paths, timeout=timeout, conc_cap=conc_cap, stubs=stubs)
         if inputs is not None:
             eng.inputs = inputs
-        eng.explore(entry, lambda e, s: list(args))
+        def setup(e, s):
+            for gname, bs in (data or {}).items():
+                e.mem_write(s, irm.gaddr[gname], list(bs))
+        eng.explore(entry, lambda e, s: list(args), setup=setup)
         out['stats'] = eng.stats()
         out['functions'] = sorted(eng.called)[:2000]
         out['notes'] = [t for (k, i, t) in eng.ended[:1]]
@@ -109,8 +114,9 @@ def run_e2(prop, tier, units, rule, assumptions, classify=None, keyfn=None, leve
     tasks = []
     owner = []
     for u in units:
-        for (entry, args, label) in u.shapes:
-            tasks.append((u.dir, entry, list(args), label, u.timeout, u.max_steps, u.max_paths, u.conc_cap, u.stubs, None))
+        for sh in u.shapes:
+            entry, args, label = sh[:3]; data = sh[3] if len(sh) > 3 else None
+            tasks.append((u.dir, entry, list(args), label, u.timeout, u.max_steps, u.max_paths, u.conc_cap, u.stubs, None, data))
             owner.append(u)
     # validation of the executor: concrete inputs through irsym and through the native build must give the same notes
     rng = random.Random(SEED)
@@ -119,18 +125,20 @@ def run_e2(prop, tier, units, rule, assumptions, classify=None, keyfn=None, leve
         if not u.validate_vectors:
             continue
         shapes = list(u.shapes); rng.shuffle(shapes)
-        for (entry, args, label) in shapes[:u.validate_vectors]:
+        for sh in shapes[:u.validate_vectors]:
+            entry, args, label = sh[:3]; data = sh[3] if len(sh) > 3 else None
             vals = {}
             for nm in ('in', 'v', 'a', 'b', 'c', 'pos', 'idx', 'cnt', 'n', 'len', 'ch', 'x', 'y', 'bits', 'bits2', 'choose', 'val', 's', 'w0', 'w1', 'w2', 'w3', 'k0', 'k1', 'k2', 'key'):
                 vals[nm] = [rng.choice([rng.randrange(0, 6), rng.randrange(0, 256), rng.choice(b'ab-=,x1 9'), rng.getrandbits(64)]) for _ in range(48)]
-            vtasks.append((u.dir, entry, list(args), label, 120, u.max_steps, 1000, u.conc_cap, u.stubs, vals)); vowner.append(u)
+            vals['val'] = [rng.choice(b'0123456789') for _ in range(48)]
+            vtasks.append((u.dir, entry, list(args), label, 120, u.max_steps, 1000, u.conc_cap, u.stubs, vals, data)); vowner.append(u)
     ctx = multiprocessing.get_context('fork')
     with ctx.Pool(workers or NCPU) as pool:
         vres = pool.map(_shape_worker, vtasks, chunksize=1) if vtasks else []
         results = pool.map(_shape_worker, tasks, chunksize=1)
     agree = differ = skipped = 0
     for t, r, u in zip(vtasks, vres, vowner):
-        nat = u.run_native(t[1], t[2], t[9])
+        nat = u.run_native(t[1], t[2], t[9], data=t[10])
         mine = ['NOTE %s %s' % (k, v) for (k, v) in (r.get('notes') or [[]])[0]] if r.get('notes') else []
         if nat['skipped'] or nat['san'] or nat['crashed'] or nat['fail'] or r['status'] != 'holds':
             skipped += 1
@@ -154,11 +162,11 @@ def run_e2(prop, tier, units, rule, assumptions, classify=None, keyfn=None, leve
             cls = classify(v) if classify else v['kind'] + ': ' + v['msg']
             if cls is None:
                 continue
-            nat = u.run_native(r['entry'], r['args'], dict(v['model'], choose=v.get('choices') or v['model'].get('choose', [])))
+            nat = u.run_native(r['entry'], r['args'], dict(v['model'], choose=v.get('choices') or v['model'].get('choose', [])), data=t[10])
             nreplay += 1
             rfile = os.path.join(replay_dir, re.sub(r'[^A-Za-z0-9_.-]', '_', hid) + '.%d.json' % k)
             with open(rfile, 'w') as f:
-                json.dump(dict(property=prop, unit=u.name, entry=r['entry'], args=r['args'], violation=v, native=nat), f, indent=1, default=str)
+                json.dump(dict(property=prop, unit=u.name, entry=r['entry'], args=r['args'], data={k: bytes(x).decode('latin1') for k, x in (t[10] or {}).items()}, violation=v, native=nat), f, indent=1, default=str)
             confirmed = (nat['fail'] or nat['san'] or nat['crashed']) and not nat['skipped']
             key = keyfn(u, r, v, cls) if keyfn else '%s:%s|%s' % (prop, r['entry'], cls)
             if confirmed or v['kind'] in ('memory',):
